@@ -52,6 +52,11 @@ CLAIMED["C07"] = ("fault_enumeration",
    "Steps that cannot be made to fail with real inputs as root (setsid, PR_SET_NO_NEW_PRIVS, capset, PTRACE_TRACEME) are not injected (no fault hook is added). Ptrace/stop-before-seccomp configurations return from Start before execve by design and are covered by C09/C15's tracer runs.",
    "fault enumeration by real inputs + property-based testing (rapid)", "§3 C07")
 
+CLAIMED["C05"] = ("exploration",
+   "Generated mount tables (ro/rw binds of directories and single files, tmpfs with/without size, proc ro/rw, nested targets inside tmpfs and binds, a filtered non-existent source; for the container also symlinks, shuffled mask-path lists with existing/missing entries, with/without /dev/null) are built through unshare.Runner (raw in-child mount sequence) and container.Builder; a probe inside runs a modification battery on the root and on every mount, lists / and /../.., and the harness reads /proc/<pid>/mountinfo from the host while the probe waits. Compared with a model: EROFS unless declared writable, effects only in rw bind sources, only configured top-level names, host secret nowhere, /old_root gone, mount table = ro tmpfs root + configured entries.",
+   "Sub-mounts inside bind sources and nosuid/nodev flags of rw binds are not asserted (the property does not state them); a mask on top of a configured mount point is not generated; tables the implementation refuses (Build/launch error) are counted, not judged.",
+   "property-based testing (rapid) with a model of the expected file-system view; probe self-report + host mountinfo", "§3 C05")
+
 NOT_YET = {}
 
 def main():
